@@ -41,6 +41,8 @@ MC = {
     "t_mix":     dict(N=3, fail=1, retry=1, wait=1, time=2, restart=1, abort=0, lanes="Lanes2", undo="BoolTrue"),
     "t_n4":      dict(N=4, fail=1, retry=0, wait=0, time=1, restart=0, abort=0, lanes="Lanes2", undo="BoolBoth"),
     "t_live":    dict(N=3, fail=1, retry=1, wait=1, time=2, restart=0, abort=0, lanes="Lanes2", undo="BoolBoth", live=True),
+    "q_kinds":   dict(N=4, NC=2, fail=0, retry=0, wait=0, time=1, restart=0, abort=0, kinds=True),
+    "t_kinds":   dict(N=4, NC=2, fail=1, retry=0, wait=0, time=1, restart=0, abort=0, kinds=True),
     "q_live":    dict(N=3, fail=1, retry=0, wait=1, time=1, restart=0, abort=0, lanes="Lanes1", undo="BoolBoth", live=True),
 }
 
@@ -49,6 +51,7 @@ PLAN = {
     "C02": {"quick": ["q_retry", "q_wait"], "thorough": ["t_retry", "t_wait", "t_n4", "t_mix"]},
     "C03": {"quick": ["q_wait", "q_abort", "q_live"], "thorough": ["t_wait", "t_abort", "t_fail2", "t_live", "t_mix"]},
     "C04": {"quick": ["q_restart"], "thorough": ["t_restart", "t_mix", "t_n4"]},
+    "C07": {"quick": ["q_kinds"], "thorough": ["q_kinds", "t_kinds"]},
 }
 
 INV = {
@@ -56,16 +59,18 @@ INV = {
     "C02": ["C02", "RunningSane"],
     "C03": ["C03"],
     "C04": ["C04_NoRedo"],
+    "C07": ["C07"],
 }
 
 
 def write_cfg(d, name, p, pid):
     live = p.get("live")
-    lines = ["SPECIFICATION %s" % ("MCLive" if live else "MCSpec"), "CONSTANTS",
-             "  N = %d" % p["N"], "  NC = 1",
+    spec = "MCSpecKinds" if p.get("kinds") else ("MCLive" if live else "MCSpec")
+    lines = ["SPECIFICATION %s" % spec, "CONSTANTS",
+             "  N = %d" % p["N"], "  NC = %d" % p.get("NC", 1),
              "  MaxFail = %d" % p["fail"], "  MaxRetry = %d" % p["retry"], "  MaxWaitRes = %d" % p["wait"],
              "  MaxTime = %d" % p["time"], "  MaxRestart = %d" % p["restart"], "  MaxAbort = %d" % p["abort"],
-             "  LaneChoices <- %s" % p["lanes"], "  UndoChoices <- %s" % p["undo"],
+             "  LaneChoices <- %s" % p.get("lanes", "Lanes1"), "  UndoChoices <- %s" % p.get("undo", "BoolTrue"),
              "INVARIANTS TypeOK %s" % " ".join(INV[pid])]
     if live:
         lines.append("PROPERTY Settles")
@@ -112,7 +117,8 @@ def record(ctx, pid):
     tb = goharness.ext_test_build(ctx, "taskengine")
     out = ctx.subdir("traces")
     cases = ctx.pick(30, 700)
-    rc, o = goharness.run_test_bin(ctx, tb, "^TestVerifEngine$", env={"VERIF_OUT_DIR": out, "VERIF_CASES": cases},
+    test = "^TestVerifSerialize$" if pid == "C07" else "^TestVerifEngine$"
+    rc, o = goharness.run_test_bin(ctx, tb, test, env={"VERIF_OUT_DIR": out, "VERIF_CASES": cases},
                                    timeout=ctx.pick(600, 3000))
     n = sum(int(x) for x in re.findall(r'VERIF-CASES (\d+)', o))
     problem = None
